@@ -664,6 +664,20 @@ def whole_byte_view(v):
     return None
 
 
+def norm_arms(p):
+    """path events with `if let Pat = x {..} else {..}` edges written as the edges of `match x { Pat => .., _ => .. }`"""
+    out = []
+    for e in p:
+        if e[0] == 'ARM' and isinstance(e[1], tuple) and e[1] and e[1][0] == 'if':
+            c = strip(e[1][1])
+            if isinstance(c, tuple) and c and c[0] == 'letcond' and isinstance(c[1], str) and len(c) > 2:
+                lab = c[1].split('(')[0]
+                out.append(['ARM', c[2], ('pat', lab if e[2] == 'true' else '_', None)] + list(e[3:]))
+                continue
+        out.append(e)
+    return out
+
+
 def role_name(facts, role):
     g = roles(facts).get(role)
     return tname(g['path']) if g else '<missing %s>' % role
